@@ -214,8 +214,8 @@ def sanitise(s):"""), ("pure_utils.py",
          """    if not default:
         doc, default = extract_default(doc, emit_default_doc=emit_default_doc)""")]),
     dict(id="stripset-prefix", kind=B, props=["C04"], expect="STRIP-SET", edits=[("emitter_utils.py",
-         """                        line.partition(",")[2].lstrip()""",
-         """                        line.lstrip(":returns: argument_parser,").lstrip()""")]),
+         """                    (doc_lines[0].partition(",")[2],),""",
+         """                    (doc_lines[0].lstrip(":returns: argument_parser,"),),""")]),
     # ------------------------------------------------------------------ NULL
     dict(id="null1-rstrip-on-none", kind=B, props=["C03"], expect="NULL-1", edits=[("emitter_utils.py",
          """                returns=(
@@ -795,8 +795,10 @@ def _write_back(parsed_ast, filename):
                             if _arg.arg == self.replacement_node.target.id""", """                            for _arg in node.args.args + node.args.kwonlyargs
                             if _arg.arg == self.replacement_node.target.id""")]),
     dict(id="det3-module-level-map", kind=B, props=["C12", "C07"], expect="DET-3", edits=[("parser_utils.py",
-         """lstrip_typings = partial(lstrip_namespace, namespaces=("typings.", "_extensions."))""",
-         """lstrip_typings = partial(lstrip_namespace, namespaces=map("{}.".format, ("typings", "_extensions")))""")]),
+         """lstrip_typings = partial(
+    lstrip_namespace, namespaces=("typing_extensions.", "typing.")
+)""",
+         """lstrip_typings = partial(lstrip_namespace, namespaces=map("{}.".format, ("typing_extensions", "typing")))""")]),
     dict(id="det1-announcements-frozenset-via-helper", kind=B, props=["C12"], expect="DET-1", edits=[("defaults_utils.py",
          """        ("defaults to ", "defaults to\\n", "Default value is ", "Default:")
         if default_search_announce is None""", """        _ANNOUNCE()
